@@ -18,6 +18,16 @@ Families
   route     a catalogue of xarray operations over several objects with differently ordered dims and different
             chunking (binary ops, concat/merge/align/stack, reductions, ffill/bfill, groupby/resample/rolling/coarsen,
             indexing, creation, dt accessors, CF decoding, ArrayWriter store …).
+  mutate    copies × in-place operations: a script over named objects (DataArray / Dataset / Variable / DataTree / the raw
+            chunked array): copy kinds (copy() default / deep / shallow, copy.copy, copy.deepcopy alone and inside a
+            container, pickle round trip, load / persist of a copy, deep copy of a shallow copy, the array-level copy
+            protocol under copy(data=…)) × in-place operations on the copy or the original (item assignment through [],
+            .loc, dict keys, the Variable, the wrapped array; boolean-mask assignment; ufunc out=; augmented assignments
+            on the object / a Dataset item; replacing .data / .values; Dataset-level assignment, update, where-assign,
+            coordinate assignment) × expressions captured before the mutation × a read of EVERY object (values,
+            reductions, cumsum, rolling).  NumPy's shared-memory semantics of shallow copies, which no chunked array
+            has, are told apart by the stock run: a difference from NumPy is excused only when xarray's stock dask
+            manager yields exactly the same values.
   mgr       the registered manager's methods called directly (compute/persist with duplicated arguments, blockwise,
             map_blocks, reduction, scan, apply_gufunc, unify_chunks, rechunk, from_array, normalize_chunks, store,
             shuffle, array_api …).
@@ -331,6 +341,24 @@ def _label(d, e):
     return e
 
 
+def _has_array(e):
+    return isinstance(e, dict) and ("l" in e or "b" in e)
+
+
+def _no_int_next_to_array(entries, ns, labels=None):
+    """xarray refuses (for every chunked backend) an assignment whose key has more than one non-slice entry unless all
+    of them are ints: next to an array indexer, ints become unit slices"""
+    if not any(_has_array(e) for e in entries):
+        return entries
+    out = []
+    for e, n, f in zip(entries, ns, labels or [None] * len(ns)):
+        if isinstance(e, int):
+            i = (e // f) if f else e % n
+            e = {"s": [i * f, i * f, None]} if f else {"s": [i, i + 1, None]}
+        out.append(e)
+    return out
+
+
 def _mkey(rng, dims, sizes, form):
     """form: dict (by dim name, a random non-empty subset), pos (a tuple for a prefix of the dims), loc (labels)"""
     arrays_left = 1                                    # xarray refuses several array indexers on chunked data
@@ -343,8 +371,8 @@ def _mkey(rng, dims, sizes, form):
                 arrays_left -= 1
             out.append(e)
         if rng.random() < 0.15 and len(dims) > 1:
-            out = ["...", _entry(rng, sizes[dims[-1]], True)]
-        return out
+            return ["...", _entry(rng, sizes[dims[-1]], True)]
+        return _no_int_next_to_array(out, [sizes[d] for d in dims[:k]])
     ds = rng.sample(list(dims), rng.randint(1, len(dims)))
     out = {}
     for d in ds:
@@ -367,7 +395,10 @@ def _mkey(rng, dims, sizes, form):
             if isinstance(e, dict) and ("l" in e or "b" in e):
                 arrays_left -= 1
             out[d] = e
-    return out
+    ks = list(out)
+    fixed = _no_int_next_to_array([out[d] for d in ks], [sizes[d] for d in ks],
+                                  [(10 if d == "y" else 1) for d in ks] if form == "loc" else None)
+    return dict(zip(ks, fixed))
 
 
 def _mval(rng, scalar_only=False):
@@ -439,10 +470,13 @@ def gen_mut(rng, case, on, how=None):
     return st
 
 
-def gen_mutate(rng, obj, kind, how=None):
+def gen_mutate(rng, obj, kind, how=None, peek=False):
     sizes = {"x": rng.randint(4, 7), "y": rng.randint(4, 8)}
     case = {"fam": "mutate", "obj": obj, "sizes": sizes, "chunks": {d: rchunk(rng, n, multi=True) for d, n in sizes.items()},
             "data_seed": rng.randrange(10**6), "read": rng.choice(MUT_READS)}
+    if case["read"] == "rolling_x":
+        # xarray's stock dask manager refuses a moving window wider than a chunk; keep the case judgeable by both
+        case["chunks"]["x"] = rng.randint(2, max(2, sizes["x"] // 2))
     if obj in ("dataset", "datatree") and rng.random() < 0.45:
         case["alias"] = True
     steps = []
@@ -454,6 +488,9 @@ def gen_mutate(rng, obj, kind, how=None):
     if rng.random() < 0.15:
         steps.append({"do": "derive", "src": "c", "dst": "dc", "how": rng.choice(MUT_DERIVES)})
     target = "c" if rng.random() < 0.65 else "o"
+    if peek or rng.random() < 0.25:
+        # computed once BEFORE it (or its twin) is changed
+        steps.append({"do": "peek", "on": target if peek else rng.choice(["o", "c"])})
     steps.append(gen_mut(rng, case, target, how))
     r = rng.random()
     if r < 0.3:
@@ -468,7 +505,8 @@ def gen_mutate(rng, obj, kind, how=None):
 
 def gen_mutate_cases(rng, tier):
     """every copy kind of every object kind in every run (each with a random in-place operation), and every in-place
-    operation of every object kind (each after a random copy kind)"""
+    operation of every object kind (each after a random copy kind), once plainly and once on an object that has
+    already been computed"""
     out = []
     reps = 3 if tier == "thorough" else 1
     for _ in range(reps):
@@ -477,6 +515,7 @@ def gen_mutate_cases(rng, tier):
                 out.append(gen_mutate(rng, obj, kind))
             for how in MUT_HOWS[obj]:
                 out.append(gen_mutate(rng, obj, rng.choice(MUT_COPIES[obj]), how))
+                out.append(gen_mutate(rng, obj, rng.choice(MUT_COPIES[obj]), how, peek=True))   # compute, change, compute
     return out
 
 
@@ -512,7 +551,7 @@ def gen_cases(rng, tier):
 
 def key_of(case):
     if case["fam"] == "mutate":
-        return f"{case['obj']}:{mutate_main(case)[0]}"
+        return mutate_main(case)[0]
     return case.get("method") or case.get("func") or case.get("variant") or case.get("op")
 
 
@@ -613,12 +652,33 @@ class Stream:
         ctx.sample({"xr_case": self.cases[mid], "verdict": reg[mid]["verdict"], "manager_methods_entered": reg[mid]["calls"]})
 
 
+SHALLOW_KINDS = {"copy_shallow", "shallow_load", "copy_copy", "copy_default"}
+
+
+def aliasing_hazard(case):
+    """does the NumPy-backed run of a mutate script share memory between two of its objects (which no chunked run does)"""
+    if case.get("alias"):
+        return True
+    for st in case["steps"]:
+        if st["do"] == "derive" and case["obj"] in ("dataarray", "dataset", "datatree"):
+            return True                                    # the result of arithmetic shares its coordinates' memory
+        if st["do"] == "copy" and st["kind"] in SHALLOW_KINDS:
+            if case["obj"] == "array" or (st["kind"] == "copy_default" and case["obj"] in ("dataarray", "variable")):
+                continue                                   # real copies
+            return True
+    return False
+
+
 def excused(case, r, s):
-    """mutate family only: a difference from the NumPy-backed run is excused exactly when xarray's stock dask manager
-    yields the very same values (NumPy's shared-memory semantics of shallow copies / in-place operators, which no
-    chunked array has) -- never when the stock run agrees with NumPy or yields anything else"""
-    return (case["fam"] == "mutate" and r["verdict"].startswith("mismatch") and s["verdict"].startswith("mismatch")
-            and r.get("digest") is not None and r.get("digest") == s.get("digest"))
+    """mutate family only: a difference from the NumPy-backed run is excused when xarray's stock dask manager yields
+    the very same values (NumPy's shared-memory semantics of shallow copies / in-place operators, which no chunked
+    array has), or when the stock manager refuses the script and the script does share memory in its NumPy-backed
+    run (nothing to judge it by) -- never when the stock run agrees with NumPy or yields anything else"""
+    if case["fam"] != "mutate" or not r["verdict"].startswith("mismatch"):
+        return False
+    if s["verdict"].startswith("mismatch"):
+        return r.get("digest") is not None and r.get("digest") == s.get("digest")
+    return s["verdict"].startswith("raises") and aliasing_hazard(case)
 
 
 def signature(case, verdict):
@@ -654,6 +714,8 @@ def shrink_candidates(case):
             if "c" in gone and steps[i]["do"] == "copy" and steps[i]["dst"] == "c":
                 continue                                   # the first copy is what the case is about
             keep = [st for j, st in enumerate(steps) if j != i and st.get("src") not in gone and st.get("on") not in gone]
+            while keep and keep[-1]["do"] == "peek":
+                keep.pop()
             if any(st["do"] == "mut" for st in keep):
                 out.append(dict(copy.deepcopy(case), steps=copy.deepcopy(keep)))
         if case.get("read") != "values":
